@@ -10,6 +10,7 @@ open BfeVerif.Proto
 
 def parseElem (t : String) : Option Elem :=
   if t == "x" then some .bad
+  else if t == "p" then some .boom
   else
     let (num, r) := if t.endsWith "r" then ((t.dropEnd 1).toString, true) else (t, false)
     num.toNat?.map fun v => .f v r
@@ -21,6 +22,7 @@ def joinOr (xs : List String) (sep : String := ",") : String :=
   if xs.isEmpty then "-" else sep.intercalate xs
 
 def renderChain (r : ChainRes) : String :=
+  if r.boom then "panic calls=" ++ joinOr (r.calls.map toString) else
   "ret=" ++ toString r.ret ++ " calls=" ++ joinOr (r.calls.map toString) ++ " res=" ++
     (match r.res with | some i => toString i | none => "-")
 
@@ -77,7 +79,7 @@ def renderConn (n : Nat) (o : ConnOut) : String :=
   if o.unknown then "model:unknown-reaction" else
   "calls=" ++ joinOr (o.calls.map fun c => letterOf c.1 ++ toString c.2) ++
   " out=" ++ joinOr (o.outs.map renderResp) ";" ++
-  " backend=" ++ toString o.backend ++ " closed=1 unread=" ++ toString (reqBytes * (n - o.served))
+  " backend=" ++ toString o.backend ++ " closed=" ++ (if o.closed then "1" else "0") ++ " unread=" ++ toString (reqBytes * (n - o.served))
 
 def field (impl key : String) : Option String :=
   ((impl.splitOn " ").find? fun f => f.startsWith (key ++ "=")).map fun f => (f.drop (key.length + 1)).toString
@@ -87,7 +89,7 @@ def chainsOf (fs : List String) : Option (Nat → List Elem) :=
     match pointOfLetter (f.take 1).toString, parseChain (f.drop 2).toString with
     | some p, some c =>
       -- the harness attaches a response object to every Response verdict of a request filter
-      let c : List Elem := c.map fun e => match e with | Elem.f v r => Elem.f v (r || v == vResponse) | Elem.bad => Elem.bad
+      let c : List Elem := c.map fun e => match e with | Elem.f v r => Elem.f v (r || v == vResponse) | e => e
       if (f.drop 1).toString.startsWith "=" then some (p, c) else none
     | _, _ => none
   go.map fun l pt => ((l.find? fun e => e.1 == pt).map (·.2)).getD []
@@ -97,13 +99,53 @@ def stopTag (ch : Nat → List Elem) : String :=
   | none => "quiet"
   | some (pt, v, _, _) => letterOf pt ++ toString v
 
+def parseCalls (s : String) : List (Nat × Nat) :=
+  if s == "-" then [] else (s.splitOn ",").filterMap parseName
+
+/-- The trace the property demands, judged on the implementation's `calls=`: every registered callback point runs
+    exactly once per request it applies to — HandleAccept and HandleFinish once per connection, HandleBeforeLocation and
+    HandleRequestFinish once for EVERY request read (also requests ended early by Close / Finish / Redirect /
+    Response), HandleFoundProduct / AfterLocation / Forward once per request iff every earlier request-side point
+    said continue, never otherwise — each time calling exactly the filters `specChain` names, in registration order;
+    and conn.serve leaves the connection closed.  With a panicking filter only the per-connection points and the
+    closed connection are demanded. -/
+def judgeTrace (n : Nat) (ch : Nat → List Elem) (calls : List (Nat × Nat)) (unread : Nat) (closed : Bool) : Option String :=
+  let served := n - unread / reqBytes
+  let σ := fun pt => specChain (ch pt)
+  let panic := (path ++ [pFinish]).any fun pt => (σ pt).boom
+  let block (pt : Nat) : List Nat := (calls.filter (·.1 == pt)).map (·.2)
+  let rep (k : Nat) (l : List Nat) : List Nat := (List.replicate k l).flatten
+  let stop (pt : Nat) : Bool := stops pt (σ pt).ret
+  let check (pt want : Nat) : Option String :=
+    let c := (σ pt).calls
+    if c.isEmpty then (if (block pt).isEmpty then none else some ("point-repeated-" ++ letterOf pt))
+    else if block pt == rep want c then none
+    else
+      let got := (block pt).count 0
+      if got < want then some ("point-skipped-" ++ (if pt == pRequestFinish then "requestfinish" else letterOf pt))
+      else if got > want then some ("point-repeated-" ++ letterOf pt)
+      else some ("chain-calls-" ++ letterOf pt)
+  let first (l : List (Option String)) : Option String := l.findSome? id
+  if !closed then some "conn-left-open-after-panic-in-finish"
+  else if panic then first [check pFinish 1]
+  else
+    let acceptClosed := stop pAccept
+    let s := if acceptClosed then 0 else served
+    let bq := !stop pBeforeLocation
+    let pq := bq && !stop pFoundProduct
+    let lq := pq && !stop pAfterLocation
+    first [check pAccept 1, check pFinish 1, check pBeforeLocation s, check pRequestFinish s,
+           check pFoundProduct (if bq then s else 0), check pAfterLocation (if pq then s else 0),
+           check pForward (if lq then s else 0),
+           (if lq && !stop pForward then check pReadResponse s else none)]
+
 def run (op impl : String) : Ans :=
   match op.splitOn " " with
   | ["fl", kind, chain] =>
     match parseChain chain with
     | none => { model := "bad-op", verdict := "skip" }
     | some c =>
-      let c := if kind == "req" then c else c.map fun e => match e with | .f v _ => .f v false | .bad => .bad
+      let c := if kind == "req" then c else c.map fun e => match e with | .f v _ => .f v false | e => e
       let m := renderChain (runChain 0 c)
       let s := renderChain (specChain c)
       let stops := c.any fun e => !isGoOn e
@@ -111,21 +153,32 @@ def run (op impl : String) : Ans :=
         verdict := if impl == s then "ok" else "FAIL:chain-order"
         tags := ["fl", "fl-" ++ kind] ++ (if c.contains .bad then ["badelem"] else []) ++
                 (if c.length > 8 then ["long"] else []) ++ (if stops then ["nt"] else []) }
-  | "sv" :: ns :: fs =>
+  | "sv" :: ns :: fs0 =>
+    let seg := fs0.any fun f => f.startsWith "seg="
+    let fs := fs0.filter fun f => !f.startsWith "seg="
     match ns.toNat?, chainsOf fs with
     | some n, some ch =>
       if fs.length != 8 then { model := "bad-op", verdict := "skip" } else
       let m := renderConn n (serveConn n ch)
+      let hasPanic := (path ++ [pFinish]).any fun pt => (specChain (ch pt)).boom
       let v :=
-        match field impl "out", (field impl "backend").bind (·.toNat?), (field impl "unread").bind (·.toNat?) with
-        | some o, some b, some u =>
+        match field impl "out", (field impl "backend").bind (·.toNat?), (field impl "unread").bind (·.toNat?),
+              field impl "calls", field impl "closed" with
+        | some o, some b, some u, some cs, some cl =>
           let outs := if o == "-" then [] else (o.splitOn ";").map parseResp
-          (match judge n ch outs b u with | none => "ok" | some c => "FAIL:" ++ c)
-        | _, _, _ => "FAIL:unparsable-result"
+          let doc := if hasPanic then none else judge n ch outs b u
+          match doc with
+          | some c => "FAIL:" ++ c
+          | none =>
+            match judgeTrace n ch (parseCalls cs) u (cl == "1") with
+            | some c => "FAIL:" ++ c
+            | none => "ok"
+        | _, _, _, _, _ => "FAIL:unparsable-result"
       let st := stopTag ch
       let multi := (path.filter fun p => !quietAt ch p).length
       { model := m, verdict := v
         tags := ["sv", "n" ++ toString n, st] ++ (if multi > 1 then ["multi"] else []) ++
+                (if hasPanic then ["panic"] else []) ++ (if seg then ["segmented"] else []) ++
                 (if st != "quiet" && n > 0 then ["nt"] else []) }
     | _, _ => { model := "bad-op", verdict := "skip" }
   | _ => { model := "bad-op", verdict := "skip" }
